@@ -442,6 +442,7 @@ def _diagnose_total(solver, sweeps=40):
     aux_const = min(aux) > thr and (max(aux) - min(aux)) <= 1e-6 * max(1.0, max(aux))
     return {
         "phase": "total_rewards",
+        "all_quiet": all(max(r) <= thr for r in rec),
         "main_quiet": main_quiet, "reach_min_rew_quiet": reach_quiet, "aux_constant_growth": aux_const,
         "last": rec[-1], "first": rec[0],
         "max_expected_rewards": max(st.expected_rewards for st in solver.state_list),
@@ -472,7 +473,22 @@ def _wrap_vi_reach(orig):
         try:
             return orig(self, states_reaching_final, prune_states)
         except StepBudgetExceeded as e:
-            e.diag = {"phase": "reachability"}
+            MON.metering = False
+            try:
+                # continue by hand with the real step functions: does anything still move?
+                diffs = []
+                for _ in range(30):
+                    md = 0.0
+                    for idx in states_reaching_final:
+                        st = self.state_list[idx]
+                        nv = st.value_iteration_reach(self.state_list)
+                        md = max(md, abs(nv - st.reach_probability))
+                        st.reach_probability = nv
+                    diffs.append(md)
+                e.diag = {"phase": "reachability", "all_quiet": all(d <= self.threshold for d in diffs), "first": diffs[0], "last": diffs[-1],
+                          "states_iterated": len(states_reaching_final)}
+            except Exception as ex:
+                e.diag = {"phase": "reachability", "diag_error": repr(ex)}
             raise
     return value_iteration_reachability_monitored
 
